@@ -18,7 +18,7 @@ META = {
         "a COMMENT runs to the end of the line) — must be accepted by an arm of the rule's match_nodes! consumer. The "
         "grammar is non-recursive, so the sets are finite and enumerated completely (the list rule is checked by "
         "alphabet). R2: the list consumer handles `transaction` with a non-empty arm and ignores only kinds that carry "
-        "no transaction. R3: every alphabetic string terminal is case-insensitive. R4: NEWLINE covers CRLF, LF and CR "
+        "no transaction. R3: every alphabetic string terminal is case-insensitive. R3 also: no consumer compares a node's matched text case-sensitively with a spelled-out word (a merged UNSPLIT|SPLIT rule whose consumer tests starts_with('UNSPLIT') reads `unsplit` as SPLIT). R4: NEWLINE covers CRLF, LF and CR "
         "with CRLF tried before CR; the list rule — evaluated as a PEG over abstract line-level words — accepts blank lines, full-line comments and a final line with or without a "
         "line break, and rejects two transactions on one line. R5: every keyword that can follow `money` and could lex as a currency code is excluded by the "
         "currency look-ahead, and no ISO-4217 code is excluded. R6: the consumers are evaluated symbolically on every derivation tree: a tree without a currency node yields a GBP amount, "
@@ -657,6 +657,77 @@ def currency_case(F, rep):
         rep.unresolved("R8", "currency-lookup", "no ISO currency look-up found in the DSL parser")
 
 
+STR_TESTS = ("starts_with", "ends_with", "contains", "eq", "ne", "find", "rfind", "strip_prefix", "strip_suffix", "matches", "split_once",
+             "rsplit_once", "split", "trim_start_matches", "trim_end_matches", "cmp", "partial_cmp")
+CASE_FOLDS = ("to_uppercase", "to_lowercase", "to_ascii_uppercase", "to_ascii_lowercase", "make_ascii_uppercase", "make_ascii_lowercase")
+
+
+def matched_text_tests(F, scope, is_text, inline_depth=1):
+    """(body, bb, term, literal) for every case-SENSITIVE test of grammar-matched text against a literal that contains a letter:
+    a str predicate / search whose subject is rooted at the node's matched text (`Node::as_str`) with no case fold on the way and whose
+    pattern is a string literal with a cased character. `eq_ignore_ascii_case` and tests of folded text are not listed."""
+    from mir import Terms, parse_callee, subterms
+    out, n_text = [], 0
+    for b in F.bodies.values():
+        if not scope(b):
+            continue
+        tb = None
+        for i, t in b.calls():
+            m = parse_callee(t["callee"])[2]
+            if is_text(t["callee"]):
+                n_text += 1
+            if m not in STR_TESTS or len(t["args"]) < 2 or "str" not in t["callee"]:
+                continue
+            tb = tb or Terms(F, b, inline_depth=inline_depth)
+            ops = [tb.operand(a) for a in t["args"]]
+
+            def raw_text(x, folded=False):
+                if isinstance(x, tuple) and x:
+                    if x[0] == "call":
+                        mm = parse_callee(x[1])[2]
+                        if mm in CASE_FOLDS:
+                            return False
+                        if is_text(x[1]):
+                            return True
+                    return any(raw_text(y) for y in x[1:] if isinstance(y, tuple)) or \
+                        any(raw_text(z) for y in x[1:] if isinstance(y, tuple) for z in y if isinstance(z, tuple) and (not y or not isinstance(y[0], str)))
+                return False
+            lits = [x[1] for o in ops for x in subterms(o) if isinstance(x, tuple) and len(x) == 2 and x[0] == "str" and isinstance(x[1], str)
+                    and any(ch.isalpha() and ch.lower() != ch.upper() for ch in x[1])]
+            subj = [o for o in ops if raw_text(o)]
+            if lits and subj:
+                out.append((b, i, t, lits[0]))
+    return out, n_text
+
+
+def consumer_case(F, rep):
+    """R3 (keywords in any case — also behind the grammar): the grammar matches keywords case-insensitively, so a consumer that looks at
+    the matched TEXT again must not compare it case-sensitively with a spelled-out word. `input.as_str().starts_with("UNSPLIT")` on a
+    rule `(^"UNSPLIT" | ^"SPLIT") ~ …` accepts `unsplit` in the grammar and then reads it as SPLIT (seeded change C13-s9)."""
+    sites, n_text = matched_text_tests(F, lambda b: b.crate == "cgt_core" and "::parser::" in b.id,
+                                       lambda c: c.endswith("::as_str") and ("pest_consume::node::Node" in c or "pest::iterators" in c))
+    rep.count("matched_text_reads", n_text)
+    if n_text < 1:
+        rep.unresolved("R3", "matched-text", "no consumer reads a node's matched text (Node::as_str) — the leaf consumers were not found")
+        return
+    rep.ob("R3", "consumers:no-case-sensitive-keyword-test", not sites,
+           f"none of the {n_text} reads of matched text is compared case-sensitively with a spelled-out word" if not sites else
+           "; ".join(f"`{b.short}` tests the matched text with {t['callee'].split('::')[-1]}({lit!r}) — case-sensitive, while the grammar accepts the "
+                     "word in any case: a lower- or mixed-case spelling takes the other branch" for b, i, t, lit in sites[:3]),
+           sites[0][0].loc(sites[0][2]["sp"]) if sites else "crates/cgt-core/src/parser.rs",
+           key="R3:consumer-case-sensitive:" + (sites[0][0].short if sites else ""))
+
+
+def controls(pctx, rep):
+    try:
+        sites, n = matched_text_tests(pctx.F, lambda b: True, lambda c: "TextNode" in c and c.endswith("::as_str"), inline_depth=0)
+        names = sorted({b.short for b, i, t, lit in sites})
+        rep.control("R3:case-sensitive-text-test", names == ["keyword_test_case_sensitive"],
+                    f"posctl: case-sensitive tests of matched text in {names} (expected ['keyword_test_case_sensitive'])")
+    except Exception as e:
+        rep.control("R3:case-sensitive-text-test", False, f"detector failed on posctl: {e}")
+
+
 def run(ctx, rep):
     S = ctx.S
     if S is None or "error" in S["grammar"]:
@@ -672,6 +743,7 @@ def run(ctx, rep):
     error_locations(ctx.F, rep)
     parsed_text_is_the_input(ctx.F, rep)
     currency_case(ctx.F, rep)
+    consumer_case(ctx.F, rep)
     # "a missing final newline" also at the seam between two input files: the CLI joins them with a line break (shared with
     # C06-R4); glued together, the last line of one file and the first of the next become one line — rejected, or swallowed
     # by a trailing comment (seeded change C13-s4)
